@@ -150,6 +150,8 @@ class VirtualLoop(object):
     self.quanta = 0
     self.on_quantum = None        # optional hook(kind) after every quantum
     self.timer_tiebreak = None    # optional fn(list of due timers) -> index to fire
+    self.timer_batch = False      # True: all timers due in one instant fire before any queued callback runs (as libev does)
+    self._batching = False
     VirtualLoop.instance = self
 
   # -- ILoop -----------------------------------------------------------------------
@@ -281,10 +283,14 @@ class VirtualLoop(object):
     """Fire one timer due at self._now. Returns False if none is due."""
     self._prune()
     tm = self._timers
-    if not tm or tm[0][0] > self._now:
+    if not tm or tm[0][0] > self._now + (1e-6 if (self.timer_batch and self._batching) else 0.0):
       return False
+    if tm[0][0] > self._now:
+      self._now = tm[0][0]
     if self.timer_tiebreak is not None:
-      due = sorted(e for e in tm if e[3] is not None and e[0] <= self._now)
+      # timers within a microsecond of the current instant count as simultaneous (float noise of
+      # deadline arithmetic; a loaded process sees them become due in one loop iteration)
+      due = sorted(e for e in tm if e[3] is not None and e[0] <= self._now + 1e-6)
       if len(due) > 1:
         k = self.timer_tiebreak([e[3] for e in due])
         entry = due[k]
@@ -317,12 +323,19 @@ class VirtualLoop(object):
         self._yield_to_driver('budget')
         continue
       mode = self._mode
+      if self._batching and mode != 'cb':
+        # libev discipline (timer_batch): every timer due in this iteration fires before the run queue is served
+        if self._fire_one_timer():
+          self._budget -= 1
+          continue
+        self._batching = False
       if mode != 'timer' and self.has_callbacks():
         self._budget -= 1
         self._run_one_callback()
         continue
       if mode != 'cb' and self._fire_one_timer():
         self._budget -= 1
+        self._batching = bool(self.timer_batch)
         continue
       self._yield_to_driver('idle')
 
